@@ -7,6 +7,7 @@ import RV.Proofs.C01WhfastOrd3
 import RV.Proofs.C01Eos
 import RV.Proofs.C01EosOrd
 import RV.Proofs.C01EosOrd8
+import RV.Proofs.C01EosAllN
 import RV.Proofs.C01Janus
 import RV.Proofs.C01JanusWords
 import RV.Proofs.C01Ias15
@@ -86,21 +87,27 @@ theorem c01_whfast_corrector_inverse : ∀ oc ∈ corrConditions, ∀ p ∈ whCo
 theorem c01_whfast_consistent : ∀ cfg ∈ whAccepted, ∀ s ∈ Whfast.stepOf cfg,
     Consistent s tolWH ∧ (cfg.1 = 1 ∨ cfg.1 = 2 → jumpSum s = 1) := Whfast.consistent
 theorem c01_whfast_fresh : ∀ cfg ∈ whAccepted, ∀ s ∈ Whfast.stepOf cfg, Fresh s := Whfast.fresh
-/-- PARTIAL (hypotheses `corrector2 = 0`, `kernel ≠ composition`): the step is `χ ∘ K ∘ χ⁻¹`, `K` a palindrome.
-    Full strength (`∀ cfg ∈ whAccepted`) is false: see the next two theorems. -/
-theorem c01_whfast_symmetric_partial : ∀ cfg ∈ whAccepted, cfg.2.2.2 = 0 → cfg.2.1 ≠ 2 →
+/-- PARTIAL (hypotheses `kernel ≠ composition` and: `corrector2 = 0`, or the second corrector's inverse is an inverse —
+    `whCorr2IsInverse`, false on the tree with finding F18, true once it is repaired): the step is `χ ∘ K ∘ χ⁻¹`, `K` a
+    palindrome.  Full strength (`∀ cfg ∈ whAccepted`) is false on the unrepaired tree: see the next two theorems. -/
+theorem c01_whfast_symmetric_partial : ∀ cfg ∈ whAccepted, (cfg.2.2.2 = 0 ∨ whCorr2IsInverse = true) → cfg.2.1 ≠ 2 →
     ∀ s ∈ Whfast.stepOf cfg, SplitSym s (Whfast.preLen cfg) := Whfast.symmetric_partial
 /-- the composition kernel is not a palindrome -/
 theorem c01_whfast_composition_kernel_not_symmetric : ∀ core ∈ whCore.lookup (0, 2), ¬ Palindrome core :=
   Whfast.composition_kernel_not_symmetric
-/-- FINDING F18: `reb_whfast_apply_corrector2(r, -1.)` is not the inverse of `reb_whfast_apply_corrector2(r, 1.)` -/
+/-- FINDING F18: `reb_whfast_apply_corrector2(r, -1.)` is not the inverse of `reb_whfast_apply_corrector2(r, 1.)`.
+    `whCorr2IsInverse` is re-derived from the operator lists; while it is false no configuration with `corrector2 = 1` is
+    `χ ∘ K ∘ χ⁻¹` and corrector followed by "inverse" deviates from the identity on the words with two `B`s and two `A`s;
+    once the source is repaired the same theorem certifies the identity on all words with ≤ 3 `B`s up to length 6. -/
 theorem c01_whfast_corrector2_not_inverse :
-    (∀ cfg ∈ whAccepted, cfg.2.2.2 = 1 → ∀ s ∈ Whfast.stepOf cfg, ¬ SplitSym s (Whfast.preLen cfg)) ∧
-    (¬ WordIdentity (whCorr2_p ++ whCorr2_m) [4, 4, 4] κWH (1/1000) ∧
-      WordIdentity (whCorr2_p ++ whCorr2_m) [4, 4, 3] κWH tolWH ∧ ¬ (norm whCorr2_m = invG (norm whCorr2_p))) :=
-  ⟨Whfast.symmetric_fails_with_corrector2, Whfast.corrector2_not_inverse⟩
-/-- PARTIAL (`corrector2 = 0`): unsynchronised stepping = synchronized stepping -/
-theorem c01_whfast_unsync_partial : ∀ cfg ∈ whAccepted, cfg.2.2.2 = 0 → ∀ s ∈ Whfast.stepOf cfg, ∀ two ∈ Whfast.twoOf cfg,
+    whCorr2IsInverse = decide (norm whCorr2_m = invG (norm whCorr2_p)) ∧
+    (whCorr2IsInverse = false → ∀ cfg ∈ whAccepted, cfg.2.2.2 = 1 → ∀ s ∈ Whfast.stepOf cfg, ¬ SplitSym s (Whfast.preLen cfg)) ∧
+    (WordIdentity (whCorr2_p ++ whCorr2_m) [4, 4, 3] κWH tolWH ∧
+      (whCorr2IsInverse = false → ¬ WordIdentity (whCorr2_p ++ whCorr2_m) [4, 4, 4] κWH (1/1000)) ∧
+      (whCorr2IsInverse = true → WordIdentity (whCorr2_p ++ whCorr2_m) [6, 6, 6, 6] κWH tolWH)) :=
+  ⟨Whfast.corrector2_flag, Whfast.symmetric_fails_with_corrector2, Whfast.corrector2_not_inverse⟩
+/-- PARTIAL (`corrector2 = 0` or repaired second corrector): unsynchronised stepping = synchronized stepping -/
+theorem c01_whfast_unsync_partial : ∀ cfg ∈ whAccepted, (cfg.2.2.2 = 0 ∨ whCorr2IsInverse = true) → ∀ s ∈ Whfast.stepOf cfg, ∀ two ∈ Whfast.twoOf cfg,
     norm two = norm (s ++ s) := Whfast.unsync_partial
 /-- advertised generalised order, Jacobi coordinates, all kernels × first correctors (second corrector off) -/
 theorem c01_whfast_order_partial : ∀ kern ∈ [0, 1, 2, 3], ∀ corr ∈ [0, 3, 5, 7, 11, 17], ∀ s ∈ Whfast.stepOf (0, kern, corr, 0),
@@ -117,9 +124,10 @@ theorem c01_whfast_order_other_coordinates :
       Quadrature s ((whfast 0 corr).getD 1 0) tolWH ∧ WordOrder s (whfastWords 0 corr) κWH tolWH) ∧
     (∀ coord ∈ [1, 2], ∀ s ∈ Whfast.stepOf (coord, 0, 0, 0), Quadrature s 2 tolWH ∧ Palindrome s) :=
   ⟨Whfast.order_barycentric, Whfast.order_heliocentric⟩
-/-- F18 seen in the order conditions: with the second corrector the `ε²` words agree to length 3 but not 4 -/
+/-- F18 seen in the order conditions: with the (unrepaired) second corrector the `ε²` words agree to length 3 but not 4 -/
 theorem c01_whfast_order_with_corrector2 : ∀ kern ∈ [1, 2, 3], ∀ corr ∈ [3, 17], ∀ s ∈ Whfast.stepOf (0, kern, corr, 1),
-    WordOrder s [4, 4, 3] κWH tolWH ∧ ¬ WordOrder s [4, 4, 4] κWH (1/1000) := Whfast.order_with_corrector2
+    WordOrder s [4, 4, 3] κWH tolWH ∧ (whCorr2IsInverse = false → ¬ WordOrder s [4, 4, 4] κWH (1/1000)) ∧
+    (whCorr2IsInverse = true → WordOrder s [4, 4, 4] κWH tolWH) := Whfast.order_with_corrector2
 
 /-! ### EOS (9 × 9 splittings, any n) -/
 theorem c01_eos_consistent : (∀ e ∈ eosOuter, Consistent e.2 tolEOS) ∧ (∀ e ∈ eosInner, Consistent e.2 tolEOS) := Eos.consistent
@@ -133,6 +141,13 @@ theorem c01_eos_inner_loop : (∀ e ∈ eosInner, ∀ p ∈ Eos.partsOf e.1.1,
       innerSched p.1 p.2.1 p.2.2.1 p.2.2.2.1 p.2.2.2.2.1 p.2.2.2.2.2 e.1.2 = e.2) ∧
     (∀ e ∈ eosParts, norm e.2.2.2.2.1 = norm (e.2.2.2.2.2.1 ++ e.2.2.1)) ∧
     (∀ e ∈ eosOuter, ∀ i ∈ eosInner.lookup (e.1, 1), norm i = norm e.2) := ⟨Eos.inner_loop_model, Eos.inner_merge.1, Eos.inner_merge.2⟩
+/-- **every n ≥ 1**: the inner scheme with `n` sub-steps (as modelled by `innerSched`) advances drift, centre of mass and kicks
+    by exactly the sums of one sub-step, hence is consistent, for all nine types -/
+theorem c01_eos_inner_all_n : ∀ e ∈ eosParts, ∀ n : Nat, 1 ≤ n →
+    Consistent (innerSched e.2.1 e.2.2.1 e.2.2.2.1 e.2.2.2.2.1 e.2.2.2.2.2.1 e.2.2.2.2.2.2 n) tolEOS := by
+  intro e he n hn
+  obtain ⟨hd, hc, hk, pd, pc, pk, h1⟩ := Eos.all_n_hypotheses e he
+  exact EosAllN.inner_consistent_all_n _ _ _ _ _ _ hd hc hk pd pc pk tolEOS h1 n hn
 /-- advertised (generalised) order of all nine types, on all words of the free algebra -/
 theorem c01_eos_order : (∀ e ∈ eosOuter, (eos.lookup e.1).isSome) ∧
     ∀ ty ∈ [0, 1, 2, 3, 4, 5, 6, 7, 8], ∀ s ∈ eosOuter.lookup ty, ∀ lim ∈ eos.lookup ty, WordOrder s lim κEOS tolEOS := by
